@@ -622,245 +622,246 @@ def «TryConvertToBool» : Nat := 423
 def «V2SamplerChoice.GetSamplingFields» : Nat := 424
 def «V2SamplerChoice.NameMeaningfulSamplers» : Nat := 425
 def «V2SamplerChoice.Sampler» : Nat := 426
-def «Validation.GetArgAsStringSlice» : Nat := 427
-def «ValidationResult.IsError» : Nat := 428
-def «ValidationResult.isEmpty» : Nat := 429
-def «ValidationResults.HasErrors» : Nat := 430
-def «WindowedThroughputSampler.GetKeyFields» : Nat := 431
-def «WindowedThroughputSampler.GetSampleRate» : Nat := 432
-def «WindowedThroughputSampler.Start» : Nat := 433
-def «WindowedThroughputSampler.Start$1» : Nat := 434
-def «WindowedThroughputSamplerConfig.GetSamplingFields» : Nat := 435
-def «WithConfigData» : Nat := 436
-def «WithConfigData$1» : Nat := 437
-def «WithRulesData» : Nat := 438
-def «WithRulesData$1» : Nat := 439
-def «addIncomingUserAgent» : Nat := 440
-def «applyCmdEnvTags» : Nat := 441
-def «applyConfigInto» : Nat := 442
-def «asFloat» : Nat := 443
-def «batchedEvent.MarshalMsg» : Nat := 444
-def «batchedEvent.UnmarshalMsg» : Nat := 445
-def «batchedEvent.getEventTime» : Nat := 446
-def «batchedEvent.getSampleRate» : Nat := 447
-def «batchedEvents.MarshalJSON» : Nat := 448
-def «batchedEvents.UnmarshalJSON» : Nat := 449
-def «batchedEvents.UnmarshalMsg» : Nat := 450
-def «batchedEvents.unmarshalBatchedEventFromFastJSON» : Nat := 451
-def «batchedEvents.unmarshalBatchedEventFromFastJSON$1» : Nat := 452
-def «batchedEvents.unmarshalBatchedEventFromFastJSON$2» : Nat := 453
-def «buildRequestURL» : Nat := 454
-def «checkForDeprecation» : Nat := 455
-def «clamp» : Nat := 456
-def «compare» : Nat := 457
-def «compareVersions» : Nat := 458
-def «conditionMatchesValue» : Nat := 459
-def «convertToString» : Nat := 460
-def «createDynForDynamicSampler» : Nat := 461
-def «createDynForEMADynamicSampler» : Nat := 462
-def «createDynForEMAThroughputSampler» : Nat := 463
-def «createDynForTotalThroughputSampler» : Nat := 464
-def «createDynForWindowedThroughputSampler» : Nat := 465
-def «cuckooDroppedRecord.Count» : Nat := 466
-def «cuckooDroppedRecord.DescendantCount» : Nat := 467
-def «cuckooDroppedRecord.Kept» : Nat := 468
-def «cuckooDroppedRecord.Rate» : Nat := 469
-def «cuckooDroppedRecord.Reason» : Nat := 470
-def «cuckooDroppedRecord.SpanCount» : Nat := 471
-def «cuckooDroppedRecord.SpanEventCount» : Nat := 472
-def «cuckooDroppedRecord.SpanLinkCount» : Nat := 473
-def «cuckooSentCache.CheckSpan» : Nat := 474
-def «cuckooSentCache.CheckTrace» : Nat := 475
-def «cuckooSentCache.Record» : Nat := 476
-def «cuckooSentCache.Resize» : Nat := 477
-def «cuckooSentCache.Stop» : Nat := 478
-def «cuckooSentCache.monitor» : Nat := 479
-def «customTraceExportHandler» : Nat := 480
-def «customTraceExportHandler$1» : Nat := 481
-def «distinctValue.AddAsString» : Nat := 482
-def «distinctValue.Reset» : Nat := 483
-def «distinctValue.Values» : Nat := 484
-def «dynsamplerMetricsRecorder.RecordMetrics» : Nat := 485
-def «dynsamplerMetricsRecorder.RegisterMetrics» : Nat := 486
-def «envGetterFunc» : Nat := 487
-def «environmentCache.addItem» : Nat := 488
-def «environmentCache.get» : Nat := 489
-def «expandEnvVarsInConfig» : Nat := 490
-def «expandEnvVarsInString» : Nat := 491
-def «expandEnvVarsInString$1» : Nat := 492
-def «expandEnvVarsInValues» : Nat := 493
-def «extractValueFromSpan» : Nat := 494
-def «fileConfig.DetermineSamplerKey» : Nat := 495
-def «fileConfig.GetAccessKeyConfig» : Nat := 496
-def «fileConfig.GetAddCountsToRoot» : Nat := 497
-def «fileConfig.GetAddHostMetadataToTrace» : Nat := 498
-def «fileConfig.GetAddRuleReasonToTrace» : Nat := 499
-def «fileConfig.GetAddSpanCountToRoot» : Nat := 500
-def «fileConfig.GetAdditionalAttributes» : Nat := 501
-def «fileConfig.GetAdditionalErrorFields» : Nat := 502
-def «fileConfig.GetAdditionalHeaders» : Nat := 503
-def «fileConfig.GetAllSamplerRules» : Nat := 504
-def «fileConfig.GetCollectionConfig» : Nat := 505
-def «fileConfig.GetCompressPeerCommunication» : Nat := 506
-def «fileConfig.GetConfigMetadata» : Nat := 507
-def «fileConfig.GetDatasetPrefix» : Nat := 508
-def «fileConfig.GetDebugServiceAddr» : Nat := 509
-def «fileConfig.GetEnvironmentCacheTTL» : Nat := 510
-def «fileConfig.GetGRPCConfig» : Nat := 511
-def «fileConfig.GetGRPCEnabled» : Nat := 512
-def «fileConfig.GetGRPCListenAddr» : Nat := 513
-def «fileConfig.GetGeneralConfig» : Nat := 514
-def «fileConfig.GetHTTPIdleTimeout» : Nat := 515
-def «fileConfig.GetHashes» : Nat := 516
-def «fileConfig.GetHealthCheckTimeout» : Nat := 517
-def «fileConfig.GetHoneycombAPI» : Nat := 518
-def «fileConfig.GetHoneycombLoggerConfig» : Nat := 519
-def «fileConfig.GetIdentifierInterfaceName» : Nat := 520
-def «fileConfig.GetIsDryRun» : Nat := 521
-def «fileConfig.GetListenAddr» : Nat := 522
-def «fileConfig.GetLoggerLevel» : Nat := 523
-def «fileConfig.GetLoggerType» : Nat := 524
-def «fileConfig.GetOTelMetricsConfig» : Nat := 525
-def «fileConfig.GetOTelTracingConfig» : Nat := 526
-def «fileConfig.GetOpAMPConfig» : Nat := 527
-def «fileConfig.GetParentIdFieldNames» : Nat := 528
-def «fileConfig.GetPeerListenAddr» : Nat := 529
-def «fileConfig.GetPeerManagementType» : Nat := 530
-def «fileConfig.GetPeerTimeout» : Nat := 531
-def «fileConfig.GetPeers» : Nat := 532
-def «fileConfig.GetPrometheusMetricsConfig» : Nat := 533
-def «fileConfig.GetQueryAuthToken» : Nat := 534
-def «fileConfig.GetRedisAuthCode» : Nat := 535
-def «fileConfig.GetRedisClusterHosts» : Nat := 536
-def «fileConfig.GetRedisDatabase» : Nat := 537
-def «fileConfig.GetRedisHost» : Nat := 538
-def «fileConfig.GetRedisIdentifier» : Nat := 539
-def «fileConfig.GetRedisPassword» : Nat := 540
-def «fileConfig.GetRedisPeerManagement» : Nat := 541
-def «fileConfig.GetRedisPrefix» : Nat := 542
-def «fileConfig.GetRedisUsername» : Nat := 543
-def «fileConfig.GetSampleCacheConfig» : Nat := 544
-def «fileConfig.GetSamplerConfigForDestName» : Nat := 545
-def «fileConfig.GetSamplingKeyFieldsForDestName» : Nat := 546
-def «fileConfig.GetStdoutLoggerConfig» : Nat := 547
-def «fileConfig.GetStressReliefConfig» : Nat := 548
-def «fileConfig.GetTraceIdFieldNames» : Nat := 549
-def «fileConfig.GetTracesConfig» : Nat := 550
-def «fileConfig.GetUseIPV6Identifier» : Nat := 551
-def «fileConfig.GetUseTLS» : Nat := 552
-def «fileConfig.GetUseTLSInsecure» : Nat := 553
-def «fileConfig.RegisterReloadCallback» : Nat := 554
-def «fileConfig.Reload» : Nat := 555
-def «flatten» : Nat := 556
-def «formatFromFilename» : Nat := 557
-def «formatFromResponse» : Nat := 558
-def «getAPIKeyAndDatasetFromMetadata» : Nat := 559
-def «getBytesFor» : Nat := 560
-def «getConfigDataForLocations» : Nat := 561
-def «getDatasetFromRequest» : Nat := 562
-def «getDefaultTrueValue» : Nat := 563
-def «getEventTime» : Nat := 564
-def «getFirstValueFromMetadata» : Nat := 565
-def «getIdentifierFromInterface» : Nat := 566
-def «getMetricType» : Nat := 567
-def «getPeerManagementConfig» : Nat := 568
-def «getRefineryTelemetryConfig» : Nat := 569
-def «getSharedDynsamplerAndRecorder» : Nat := 570
-def «getUserAgentFromRequest» : Nat := 571
-def «hashList» : Nat := 572
-def «init» : Nat := 573
-def «iopLogger.Debug» : Nat := 574
-def «iopLogger.Error» : Nat := 575
-def «iopLogger.Info» : Nat := 576
-def «isString» : Nat := 577
-def «isVersionDeprecated» : Nat := 578
-def «keptTraceCacheEntry.Count» : Nat := 579
-def «keptTraceCacheEntry.DescendantCount» : Nat := 580
-def «keptTraceCacheEntry.Kept» : Nat := 581
-def «keptTraceCacheEntry.Rate» : Nat := 582
-def «keptTraceCacheEntry.SpanCount» : Nat := 583
-def «keptTraceCacheEntry.SpanEventCount» : Nat := 584
-def «keptTraceCacheEntry.SpanLinkCount» : Nat := 585
-def «load» : Nat := 586
-def «loadConfigsInto» : Nat := 587
-def «loadConfigsIntoMap» : Nat := 588
-def «loadNamedMetadata» : Nat := 589
-def «makeDecoders» : Nat := 590
-def «makeDynsamplerKey» : Nat := 591
-def «maskString» : Nat := 592
-def «mergeTraceAndSpanSampleRates» : Nat := 593
-def «mustFloat» : Nat := 594
-def «newBatchedEvents» : Nat := 595
-def «newConfigAndRules» : Nat := 596
-def «newEnvironmentCache» : Nat := 597
-def «newFileConfig» : Nat := 598
-def «newPeerCommand» : Nat := 599
-def «newSamplerMetricNames» : Nat := 600
-def «newStressReliefMessage» : Nat := 601
-def «newTraceKey» : Nat := 602
-def «parseFractionalEpoch» : Nat := 603
-def «peerCommand.marshal» : Nat := 604
-def «peerCommand.unmarshal» : Nat := 605
-def «populateConfigContents» : Nat := 606
-def «publicAddr» : Nat := 607
-def «randStringBytes» : Nat := 608
-def «recycleHTTPBodyBuffer» : Nat := 609
-def «registerCustomTraceService» : Nat := 610
-def «ruleMatchesSpanInTrace» : Nat := 611
-def «ruleMatchesTrace» : Nat := 612
-def «selectIPFromAddrs» : Nat := 613
-def «setCompareOperators» : Nat := 614
-def «setCompareOperators$1» : Nat := 615
-def «setCompareOperators$10» : Nat := 616
-def «setCompareOperators$11» : Nat := 617
-def «setCompareOperators$12» : Nat := 618
-def «setCompareOperators$13» : Nat := 619
-def «setCompareOperators$14» : Nat := 620
-def «setCompareOperators$15» : Nat := 621
-def «setCompareOperators$16» : Nat := 622
-def «setCompareOperators$17» : Nat := 623
-def «setCompareOperators$18» : Nat := 624
-def «setCompareOperators$19» : Nat := 625
-def «setCompareOperators$2» : Nat := 626
-def «setCompareOperators$20» : Nat := 627
-def «setCompareOperators$3» : Nat := 628
-def «setCompareOperators$4» : Nat := 629
-def «setCompareOperators$5» : Nat := 630
-def «setCompareOperators$6» : Nat := 631
-def «setCompareOperators$7» : Nat := 632
-def «setCompareOperators$8» : Nat := 633
-def «setCompareOperators$9» : Nat := 634
-def «setInBasedOperators» : Nat := 635
-def «setInBasedOperators$1» : Nat := 636
-def «setInBasedOperators$2» : Nat := 637
-def «setInBasedOperators$3» : Nat := 638
-def «setInBasedOperators$4» : Nat := 639
-def «setMatchStringBasedOperators» : Nat := 640
-def «setMatchStringBasedOperators$1» : Nat := 641
-def «setMatchStringBasedOperators$2» : Nat := 642
-def «setMatchStringBasedOperators$3» : Nat := 643
-def «setRegexStringMatchOperator» : Nat := 644
-def «setRegexStringMatchOperator$1» : Nat := 645
-def «statusRecorder.WriteHeader» : Nat := 646
-def «stressReliefMessage.String» : Nat := 647
-def «traceKey.build» : Nat := 648
-def «translatedTraceServiceRequest.ProtoMessage» : Nat := 649
-def «translatedTraceServiceRequest.Reset» : Nat := 650
-def «translatedTraceServiceRequest.String» : Nat := 651
-def «translatedTraceServiceRequest.Unmarshal» : Nat := 652
-def «tryConvertToFloat» : Nat := 653
-def «tryConvertToInt» : Nat := 654
-def «unmarshal» : Nat := 655
-def «unmarshalStressReliefMessage» : Nat := 656
-def «validateConfigs» : Nat := 657
-def «validateDatatype» : Nat := 658
-def «validateRules» : Nat := 659
-def «writeYAMLToFile» : Nat := 660
+def «V2SamplerConfig.check» : Nat := 427
+def «Validation.GetArgAsStringSlice» : Nat := 428
+def «ValidationResult.IsError» : Nat := 429
+def «ValidationResult.isEmpty» : Nat := 430
+def «ValidationResults.HasErrors» : Nat := 431
+def «WindowedThroughputSampler.GetKeyFields» : Nat := 432
+def «WindowedThroughputSampler.GetSampleRate» : Nat := 433
+def «WindowedThroughputSampler.Start» : Nat := 434
+def «WindowedThroughputSampler.Start$1» : Nat := 435
+def «WindowedThroughputSamplerConfig.GetSamplingFields» : Nat := 436
+def «WithConfigData» : Nat := 437
+def «WithConfigData$1» : Nat := 438
+def «WithRulesData» : Nat := 439
+def «WithRulesData$1» : Nat := 440
+def «addIncomingUserAgent» : Nat := 441
+def «applyCmdEnvTags» : Nat := 442
+def «applyConfigInto» : Nat := 443
+def «asFloat» : Nat := 444
+def «batchedEvent.MarshalMsg» : Nat := 445
+def «batchedEvent.UnmarshalMsg» : Nat := 446
+def «batchedEvent.getEventTime» : Nat := 447
+def «batchedEvent.getSampleRate» : Nat := 448
+def «batchedEvents.MarshalJSON» : Nat := 449
+def «batchedEvents.UnmarshalJSON» : Nat := 450
+def «batchedEvents.UnmarshalMsg» : Nat := 451
+def «batchedEvents.unmarshalBatchedEventFromFastJSON» : Nat := 452
+def «batchedEvents.unmarshalBatchedEventFromFastJSON$1» : Nat := 453
+def «batchedEvents.unmarshalBatchedEventFromFastJSON$2» : Nat := 454
+def «buildRequestURL» : Nat := 455
+def «checkForDeprecation» : Nat := 456
+def «clamp» : Nat := 457
+def «compare» : Nat := 458
+def «compareVersions» : Nat := 459
+def «conditionMatchesValue» : Nat := 460
+def «convertToString» : Nat := 461
+def «createDynForDynamicSampler» : Nat := 462
+def «createDynForEMADynamicSampler» : Nat := 463
+def «createDynForEMAThroughputSampler» : Nat := 464
+def «createDynForTotalThroughputSampler» : Nat := 465
+def «createDynForWindowedThroughputSampler» : Nat := 466
+def «cuckooDroppedRecord.Count» : Nat := 467
+def «cuckooDroppedRecord.DescendantCount» : Nat := 468
+def «cuckooDroppedRecord.Kept» : Nat := 469
+def «cuckooDroppedRecord.Rate» : Nat := 470
+def «cuckooDroppedRecord.Reason» : Nat := 471
+def «cuckooDroppedRecord.SpanCount» : Nat := 472
+def «cuckooDroppedRecord.SpanEventCount» : Nat := 473
+def «cuckooDroppedRecord.SpanLinkCount» : Nat := 474
+def «cuckooSentCache.CheckSpan» : Nat := 475
+def «cuckooSentCache.CheckTrace» : Nat := 476
+def «cuckooSentCache.Record» : Nat := 477
+def «cuckooSentCache.Resize» : Nat := 478
+def «cuckooSentCache.Stop» : Nat := 479
+def «cuckooSentCache.monitor» : Nat := 480
+def «customTraceExportHandler» : Nat := 481
+def «customTraceExportHandler$1» : Nat := 482
+def «distinctValue.AddAsString» : Nat := 483
+def «distinctValue.Reset» : Nat := 484
+def «distinctValue.Values» : Nat := 485
+def «dynsamplerMetricsRecorder.RecordMetrics» : Nat := 486
+def «dynsamplerMetricsRecorder.RegisterMetrics» : Nat := 487
+def «envGetterFunc» : Nat := 488
+def «environmentCache.addItem» : Nat := 489
+def «environmentCache.get» : Nat := 490
+def «expandEnvVarsInConfig» : Nat := 491
+def «expandEnvVarsInString» : Nat := 492
+def «expandEnvVarsInString$1» : Nat := 493
+def «expandEnvVarsInValues» : Nat := 494
+def «extractValueFromSpan» : Nat := 495
+def «fileConfig.DetermineSamplerKey» : Nat := 496
+def «fileConfig.GetAccessKeyConfig» : Nat := 497
+def «fileConfig.GetAddCountsToRoot» : Nat := 498
+def «fileConfig.GetAddHostMetadataToTrace» : Nat := 499
+def «fileConfig.GetAddRuleReasonToTrace» : Nat := 500
+def «fileConfig.GetAddSpanCountToRoot» : Nat := 501
+def «fileConfig.GetAdditionalAttributes» : Nat := 502
+def «fileConfig.GetAdditionalErrorFields» : Nat := 503
+def «fileConfig.GetAdditionalHeaders» : Nat := 504
+def «fileConfig.GetAllSamplerRules» : Nat := 505
+def «fileConfig.GetCollectionConfig» : Nat := 506
+def «fileConfig.GetCompressPeerCommunication» : Nat := 507
+def «fileConfig.GetConfigMetadata» : Nat := 508
+def «fileConfig.GetDatasetPrefix» : Nat := 509
+def «fileConfig.GetDebugServiceAddr» : Nat := 510
+def «fileConfig.GetEnvironmentCacheTTL» : Nat := 511
+def «fileConfig.GetGRPCConfig» : Nat := 512
+def «fileConfig.GetGRPCEnabled» : Nat := 513
+def «fileConfig.GetGRPCListenAddr» : Nat := 514
+def «fileConfig.GetGeneralConfig» : Nat := 515
+def «fileConfig.GetHTTPIdleTimeout» : Nat := 516
+def «fileConfig.GetHashes» : Nat := 517
+def «fileConfig.GetHealthCheckTimeout» : Nat := 518
+def «fileConfig.GetHoneycombAPI» : Nat := 519
+def «fileConfig.GetHoneycombLoggerConfig» : Nat := 520
+def «fileConfig.GetIdentifierInterfaceName» : Nat := 521
+def «fileConfig.GetIsDryRun» : Nat := 522
+def «fileConfig.GetListenAddr» : Nat := 523
+def «fileConfig.GetLoggerLevel» : Nat := 524
+def «fileConfig.GetLoggerType» : Nat := 525
+def «fileConfig.GetOTelMetricsConfig» : Nat := 526
+def «fileConfig.GetOTelTracingConfig» : Nat := 527
+def «fileConfig.GetOpAMPConfig» : Nat := 528
+def «fileConfig.GetParentIdFieldNames» : Nat := 529
+def «fileConfig.GetPeerListenAddr» : Nat := 530
+def «fileConfig.GetPeerManagementType» : Nat := 531
+def «fileConfig.GetPeerTimeout» : Nat := 532
+def «fileConfig.GetPeers» : Nat := 533
+def «fileConfig.GetPrometheusMetricsConfig» : Nat := 534
+def «fileConfig.GetQueryAuthToken» : Nat := 535
+def «fileConfig.GetRedisAuthCode» : Nat := 536
+def «fileConfig.GetRedisClusterHosts» : Nat := 537
+def «fileConfig.GetRedisDatabase» : Nat := 538
+def «fileConfig.GetRedisHost» : Nat := 539
+def «fileConfig.GetRedisIdentifier» : Nat := 540
+def «fileConfig.GetRedisPassword» : Nat := 541
+def «fileConfig.GetRedisPeerManagement» : Nat := 542
+def «fileConfig.GetRedisPrefix» : Nat := 543
+def «fileConfig.GetRedisUsername» : Nat := 544
+def «fileConfig.GetSampleCacheConfig» : Nat := 545
+def «fileConfig.GetSamplerConfigForDestName» : Nat := 546
+def «fileConfig.GetSamplingKeyFieldsForDestName» : Nat := 547
+def «fileConfig.GetStdoutLoggerConfig» : Nat := 548
+def «fileConfig.GetStressReliefConfig» : Nat := 549
+def «fileConfig.GetTraceIdFieldNames» : Nat := 550
+def «fileConfig.GetTracesConfig» : Nat := 551
+def «fileConfig.GetUseIPV6Identifier» : Nat := 552
+def «fileConfig.GetUseTLS» : Nat := 553
+def «fileConfig.GetUseTLSInsecure» : Nat := 554
+def «fileConfig.RegisterReloadCallback» : Nat := 555
+def «fileConfig.Reload» : Nat := 556
+def «flatten» : Nat := 557
+def «formatFromFilename» : Nat := 558
+def «formatFromResponse» : Nat := 559
+def «getAPIKeyAndDatasetFromMetadata» : Nat := 560
+def «getBytesFor» : Nat := 561
+def «getConfigDataForLocations» : Nat := 562
+def «getDatasetFromRequest» : Nat := 563
+def «getDefaultTrueValue» : Nat := 564
+def «getEventTime» : Nat := 565
+def «getFirstValueFromMetadata» : Nat := 566
+def «getIdentifierFromInterface» : Nat := 567
+def «getMetricType» : Nat := 568
+def «getPeerManagementConfig» : Nat := 569
+def «getRefineryTelemetryConfig» : Nat := 570
+def «getSharedDynsamplerAndRecorder» : Nat := 571
+def «getUserAgentFromRequest» : Nat := 572
+def «hashList» : Nat := 573
+def «init» : Nat := 574
+def «iopLogger.Debug» : Nat := 575
+def «iopLogger.Error» : Nat := 576
+def «iopLogger.Info» : Nat := 577
+def «isString» : Nat := 578
+def «isVersionDeprecated» : Nat := 579
+def «keptTraceCacheEntry.Count» : Nat := 580
+def «keptTraceCacheEntry.DescendantCount» : Nat := 581
+def «keptTraceCacheEntry.Kept» : Nat := 582
+def «keptTraceCacheEntry.Rate» : Nat := 583
+def «keptTraceCacheEntry.SpanCount» : Nat := 584
+def «keptTraceCacheEntry.SpanEventCount» : Nat := 585
+def «keptTraceCacheEntry.SpanLinkCount» : Nat := 586
+def «load» : Nat := 587
+def «loadConfigsInto» : Nat := 588
+def «loadConfigsIntoMap» : Nat := 589
+def «loadNamedMetadata» : Nat := 590
+def «makeDecoders» : Nat := 591
+def «makeDynsamplerKey» : Nat := 592
+def «maskString» : Nat := 593
+def «mergeTraceAndSpanSampleRates» : Nat := 594
+def «mustFloat» : Nat := 595
+def «newBatchedEvents» : Nat := 596
+def «newConfigAndRules» : Nat := 597
+def «newEnvironmentCache» : Nat := 598
+def «newFileConfig» : Nat := 599
+def «newPeerCommand» : Nat := 600
+def «newSamplerMetricNames» : Nat := 601
+def «newStressReliefMessage» : Nat := 602
+def «newTraceKey» : Nat := 603
+def «parseFractionalEpoch» : Nat := 604
+def «peerCommand.marshal» : Nat := 605
+def «peerCommand.unmarshal» : Nat := 606
+def «populateConfigContents» : Nat := 607
+def «publicAddr» : Nat := 608
+def «randStringBytes» : Nat := 609
+def «recycleHTTPBodyBuffer» : Nat := 610
+def «registerCustomTraceService» : Nat := 611
+def «ruleMatchesSpanInTrace» : Nat := 612
+def «ruleMatchesTrace» : Nat := 613
+def «selectIPFromAddrs» : Nat := 614
+def «setCompareOperators» : Nat := 615
+def «setCompareOperators$1» : Nat := 616
+def «setCompareOperators$10» : Nat := 617
+def «setCompareOperators$11» : Nat := 618
+def «setCompareOperators$12» : Nat := 619
+def «setCompareOperators$13» : Nat := 620
+def «setCompareOperators$14» : Nat := 621
+def «setCompareOperators$15» : Nat := 622
+def «setCompareOperators$16» : Nat := 623
+def «setCompareOperators$17» : Nat := 624
+def «setCompareOperators$18» : Nat := 625
+def «setCompareOperators$19» : Nat := 626
+def «setCompareOperators$2» : Nat := 627
+def «setCompareOperators$20» : Nat := 628
+def «setCompareOperators$3» : Nat := 629
+def «setCompareOperators$4» : Nat := 630
+def «setCompareOperators$5» : Nat := 631
+def «setCompareOperators$6» : Nat := 632
+def «setCompareOperators$7» : Nat := 633
+def «setCompareOperators$8» : Nat := 634
+def «setCompareOperators$9» : Nat := 635
+def «setInBasedOperators» : Nat := 636
+def «setInBasedOperators$1» : Nat := 637
+def «setInBasedOperators$2» : Nat := 638
+def «setInBasedOperators$3» : Nat := 639
+def «setInBasedOperators$4» : Nat := 640
+def «setMatchStringBasedOperators» : Nat := 641
+def «setMatchStringBasedOperators$1» : Nat := 642
+def «setMatchStringBasedOperators$2» : Nat := 643
+def «setMatchStringBasedOperators$3» : Nat := 644
+def «setRegexStringMatchOperator» : Nat := 645
+def «setRegexStringMatchOperator$1» : Nat := 646
+def «statusRecorder.WriteHeader» : Nat := 647
+def «stressReliefMessage.String» : Nat := 648
+def «traceKey.build» : Nat := 649
+def «translatedTraceServiceRequest.ProtoMessage» : Nat := 650
+def «translatedTraceServiceRequest.Reset» : Nat := 651
+def «translatedTraceServiceRequest.String» : Nat := 652
+def «translatedTraceServiceRequest.Unmarshal» : Nat := 653
+def «tryConvertToFloat» : Nat := 654
+def «tryConvertToInt» : Nat := 655
+def «unmarshal» : Nat := 656
+def «unmarshalStressReliefMessage» : Nat := 657
+def «validateConfigs» : Nat := 658
+def «validateDatatype» : Nat := 659
+def «validateRules» : Nat := 660
+def «writeYAMLToFile» : Nat := 661
 end F
 
 def locNames : List String := ["InMemCollector.Config", "InMemCollector.Logger", "InMemCollector.Clock", "InMemCollector.Tracer", "InMemCollector.Health", "InMemCollector.Sharder", "InMemCollector.Transmission", "InMemCollector.PeerTransmission", "InMemCollector.PubSub", "InMemCollector.Metrics", "InMemCollector.SamplerFactory", "InMemCollector.StressRelief", "InMemCollector.Peers", "InMemCollector.TestMode", "InMemCollector.BlockOnAddSpan", "InMemCollector.workers", "InMemCollector.mutex", "InMemCollector.monitorWG", "InMemCollector.workersWG", "InMemCollector.sendTracesWG", "InMemCollector.reload", "InMemCollector.tracesToSend", "InMemCollector.done", "InMemCollector.hostname", "InMemCollector.memMetricSample", "CollectorWorker.ID", "CollectorWorker.parent", "CollectorWorker.incoming", "CollectorWorker.fromPeer", "CollectorWorker.sendEarly", "CollectorWorker.pause", "CollectorWorker.reload", "CollectorWorker.cache", "CollectorWorker.sampleCache", "CollectorWorker.datasetSamplers", "CollectorWorker.lastCacheSize", "CollectorWorker.localSpansWaiting", "CollectorWorker.localSpanReceived", "CollectorWorker.localSpanProcessed", "CollectorWorker.healthCheckInAt", "StressRelief.RefineryMetrics", "StressRelief.Config", "StressRelief.Logger", "StressRelief.Health", "StressRelief.PubSub", "StressRelief.Peer", "StressRelief.Clock", "StressRelief.Done", "StressRelief.mode", "StressRelief.hostID", "StressRelief.activateLevel", "StressRelief.deactivateLevel", "StressRelief.sampleRate", "StressRelief.upperBound", "StressRelief.overallStressLevel", "StressRelief.reason", "StressRelief.formula", "StressRelief.stressed", "StressRelief.stayOnUntil", "StressRelief.minDuration", "StressRelief.topic", "StressRelief.algorithms", "StressRelief.lock", "StressRelief.stressLevels", "StressRelief.disableStressLevelReport", "CuckooTraceChecker.current", "CuckooTraceChecker.current*", "CuckooTraceChecker.future", "CuckooTraceChecker.future*", "CuckooTraceChecker.mut", "CuckooTraceChecker.capacity", "CuckooTraceChecker.met", "CuckooTraceChecker.addch", "CuckooTraceChecker.done", "CuckooTraceChecker.shutdownWG", "cuckooSentCache.met", "cuckooSentCache.kept", "cuckooSentCache.dropped", "cuckooSentCache.recentDroppedIDs", "cuckooSentCache.cfg", "cuckooSentCache.done", "cuckooSentCache.shutdownWG", "cuckooSentCache.keptReasons", "Router.Config", "Router.Logger", "Router.Health", "Router.HTTPTransport", "Router.UpstreamTransmission", "Router.PeerTransmission", "Router.Sharder", "Router.Collector", "Router.Metrics", "Router.Tracer", "Router.versionStr", "Router.proxyClient", "Router.routerType", "Router.iopLogger", "Router.zstdDecoder", "Router.server", "Router.grpcServer", "Router.doneWG", "Router.donech", "Router.environmentCache", "Router.hsrv", "Router.metricsNames", "environmentCache.mutex", "environmentCache.items", "environmentCache.ttl", "environmentCache.getFn", "eventBatch.mutex", "eventBatch.events", "eventBatch.startTime", "DirectTransmission.Config", "DirectTransmission.Logger", "DirectTransmission.Version", "DirectTransmission.Metrics", "DirectTransmission.Transport", "DirectTransmission.Clock", "DirectTransmission.transmitType", "DirectTransmission.enableCompression", "DirectTransmission.maxBatchSize", "DirectTransmission.batchTimeout", "DirectTransmission.batchSendTimeout", "DirectTransmission.additionalHeaders", "DirectTransmission.eventBatches", "DirectTransmission.batchMutex", "DirectTransmission.dispatchPool", "DirectTransmission.stop", "DirectTransmission.stopWG", "DirectTransmission.httpClient", "DirectTransmission.userAgent", "DirectTransmission.metricKeys", "RedisPubsubPeers.Config", "RedisPubsubPeers.Metrics", "RedisPubsubPeers.Logger", "RedisPubsubPeers.PubSub", "RedisPubsubPeers.Clock", "RedisPubsubPeers.InstanceID", "RedisPubsubPeers.Done", "RedisPubsubPeers.peers", "RedisPubsubPeers.hash", "RedisPubsubPeers.cbMut", "RedisPubsubPeers.callbacks", "RedisPubsubPeers.sub", "RedisPubsubPeers.topic", "fileConfig.mainConfig", "fileConfig.mainHash", "fileConfig.rulesConfig", "fileConfig.rulesHash", "fileConfig.opts", "fileConfig.callbacks", "fileConfig.mux", "fileConfig.lastLoadTime", "ConfigWatcher.Config", "ConfigWatcher.Logger", "ConfigWatcher.PubSub", "ConfigWatcher.Tracer", "ConfigWatcher.Clock", "ConfigWatcher.subscr", "ConfigWatcher.msgTime", "ConfigWatcher.done", "ConfigWatcher.mut", "ConfigWatcher.topic", "ConfigWatcher.Starter", "ConfigWatcher.Stopper", "MultiMetrics.Config", "MultiMetrics.PromMetrics", "MultiMetrics.OTelMetrics", "MultiMetrics.children", "MultiMetrics.counters", "MultiMetrics.gauges", "MultiMetrics.updowns", "MultiMetrics.stores", "MultiMetrics.metricTypes", "SamplerFactory.Config", "SamplerFactory.Logger", "SamplerFactory.Metrics", "SamplerFactory.Peers", "SamplerFactory.peerCount", "SamplerFactory.mutex", "SamplerFactory.sharedDynsamplers", "SamplerFactory.goalThroughputConfigs", "environmentCache.addItem()"]
 
-def fnNames : List String := ["AccessKeyConfig.GetReplaceKey", "AccessKeyConfig.HasKeyIDs", "AccessKeyConfig.IsAccepted", "CmdEnv.ApplyTags", "CmdEnv.GetDelimiter", "CmdEnv.GetField", "CollectionConfig.GetIncomingQueueSizePerWorker", "CollectionConfig.GetMaxAlloc", "CollectionConfig.GetPeerQueueSizePerWorker", "CollectionConfig.GetWorkerCount", "CollectorWorker.GetCacheSize", "CollectorWorker.IsHealthy", "CollectorWorker.Stop", "CollectorWorker.addSpan", "CollectorWorker.addSpanFromPeer", "CollectorWorker.collect", "CollectorWorker.getLastSpanProcessed", "CollectorWorker.makeDecision", "CollectorWorker.processSpan", "CollectorWorker.processSpan$1", "CollectorWorker.sendExpiredTracesInCache", "CollectorWorker.sendExpiredTracesInCache$1", "CollectorWorker.sendTracesEarly", "CollectorWorker.sendTracesEarly$1", "ConfigHashMetrics", "ConfigWatcher.ReloadCallback", "ConfigWatcher.Start", "ConfigWatcher.Stop", "ConfigWatcher.SubscriptionListener", "ConfigWatcher.monitor", "ConvertBoolToFloat", "CuckooTraceChecker.Add", "CuckooTraceChecker.Check", "CuckooTraceChecker.Maintain", "CuckooTraceChecker.SetNextCapacity", "CuckooTraceChecker.Stop", "CuckooTraceChecker.drain", "DefaultInMemCache.Get", "DefaultInMemCache.GetAll", "DefaultInMemCache.GetCacheCapacity", "DefaultInMemCache.GetCacheEntryCount", "DefaultInMemCache.RemoveTraces", "DefaultInMemCache.Set", "DefaultInMemCache.TakeExpiredTraces", "DefaultTransmission.EnqueueEvent", "DefaultTransmission.EnqueueSpan", "DefaultTransmission.RegisterMetrics", "DefaultTransmission.Start", "DefaultTransmission.Start$1", "DefaultTransmission.Start$2", "DefaultTransmission.Stop", "DefaultTransmission.processResponses", "DefaultTransmission.reloadTransmissionBuilder", "DefaultTrue.Get", "DefaultTrue.MarshalText", "DefaultTrue.UnmarshalText", "Deprecation.GetDeprecationText", "Deprecation.GetLastVersion", "DeterministicSampler.GetKeyFields", "DeterministicSampler.GetSampleRate", "DeterministicSampler.Start", "DeterministicSampler.Start$1", "DeterministicSamplerConfig.GetSamplingFields", "DirectTransmission.EnqueueEvent", "DirectTransmission.EnqueueEvent$1", "DirectTransmission.EnqueueSpan", "DirectTransmission.Start", "DirectTransmission.Stop", "DirectTransmission.Stop$1", "DirectTransmission.dispatchStaleBatches", "DirectTransmission.dispatchStaleBatches$1", "DirectTransmission.handleBatchFailure", "DirectTransmission.handleError", "DirectTransmission.handleEventError", "DirectTransmission.registerMetrics", "DirectTransmission.sendBatch", "Duration.MarshalText", "Duration.UnmarshalText", "DynamicSampler.GetKeyFields", "DynamicSampler.GetSampleRate", "DynamicSampler.Start", "DynamicSampler.Start$1", "DynamicSamplerConfig.GetSamplingFields", "EMADynamicSampler.GetKeyFields", "EMADynamicSampler.GetSampleRate", "EMADynamicSampler.Start", "EMADynamicSampler.Start$1", "EMADynamicSamplerConfig.GetSamplingFields", "EMAThroughputSampler.GetKeyFields", "EMAThroughputSampler.GetSampleRate", "EMAThroughputSampler.Start", "EMAThroughputSampler.Start$1", "EMAThroughputSamplerConfig.GetSamplingFields", "FileConfigError.Error", "FileConfigError.HasErrors", "FilePeers.GetInstanceID", "FilePeers.GetPeers", "FilePeers.Ready", "FilePeers.RegisterUpdatedPeersCallback", "FilePeers.Start", "FilePeers.Start$1", "GetCollectorImplementation", "GetKeyFields", "GetMetricsImplementation", "Group.GetDeprecationVersion", "Group.IsDeprecated", "HoneycombLoggerConfig.GetSamplerEnabled", "InMemCollector.AddSpan", "InMemCollector.AddSpanFromPeer", "InMemCollector.GetStressedSampleRate", "InMemCollector.IsMyTrace", "InMemCollector.ProcessSpanImmediately", "InMemCollector.Start", "InMemCollector.Start$1", "InMemCollector.Stop", "InMemCollector.Stressed", "InMemCollector.addAdditionalAttributes", "InMemCollector.checkAlloc", "InMemCollector.dealWithSentTrace", "InMemCollector.getWorkerIDForTrace", "InMemCollector.isReady", "InMemCollector.monitor", "InMemCollector.reloadConfigs", "InMemCollector.send", "InMemCollector.sendReloadSignal", "InMemCollector.sendTraces", "IsLegacyAPIKey", "KeptReasonsCache.Get", "KeptReasonsCache.Set", "Level.MarshalText", "Level.String", "Level.UnmarshalText", "LoadConfigMetadata", "LoadRulesMetadata", "LogsServer.Export", "MemorySize.MarshalText", "MemorySize.UnmarshalFlag", "MemorySize.UnmarshalText", "Metadata.ClosestNamesTo", "Metadata.ClosestNamesTo$1", "Metadata.GetField", "Metadata.GetGroup", "Metadata.LoadFrom", "Metadata.Validate", "Metadata.ValidateRules", "MetricType.String", "MockCollector.AddSpan", "MockCollector.AddSpanFromPeer", "MockCollector.Flush", "MockCollector.GetStressedSampleRate", "MockCollector.ProcessSpanImmediately", "MockCollector.Stressed", "MockConfig.DetermineSamplerKey", "MockConfig.GetAccessKeyConfig", "MockConfig.GetAddCountsToRoot", "MockConfig.GetAddHostMetadataToTrace", "MockConfig.GetAddRuleReasonToTrace", "MockConfig.GetAddSpanCountToRoot", "MockConfig.GetAdditionalAttributes", "MockConfig.GetAdditionalErrorFields", "MockConfig.GetAdditionalHeaders", "MockConfig.GetAllSamplerRules", "MockConfig.GetCollectionConfig", "MockConfig.GetCollectorType", "MockConfig.GetCompressPeerCommunication", "MockConfig.GetConfigMetadata", "MockConfig.GetDatasetPrefix", "MockConfig.GetDebugServiceAddr", "MockConfig.GetEnvironmentCacheTTL", "MockConfig.GetGRPCConfig", "MockConfig.GetGRPCEnabled", "MockConfig.GetGRPCListenAddr", "MockConfig.GetGeneralConfig", "MockConfig.GetHTTPIdleTimeout", "MockConfig.GetHashes", "MockConfig.GetHealthCheckTimeout", "MockConfig.GetHoneycombAPI", "MockConfig.GetHoneycombLoggerConfig", "MockConfig.GetIdentifierInterfaceName", "MockConfig.GetIsDryRun", "MockConfig.GetListenAddr", "MockConfig.GetLoggerLevel", "MockConfig.GetLoggerType", "MockConfig.GetOTelMetricsConfig", "MockConfig.GetOTelTracingConfig", "MockConfig.GetOpAMPConfig", "MockConfig.GetParentIdFieldNames", "MockConfig.GetPeerListenAddr", "MockConfig.GetPeerManagementType", "MockConfig.GetPeerTimeout", "MockConfig.GetPeers", "MockConfig.GetPrometheusMetricsConfig", "MockConfig.GetQueryAuthToken", "MockConfig.GetRedisIdentifier", "MockConfig.GetRedisPeerManagement", "MockConfig.GetSampleCacheConfig", "MockConfig.GetSamplerConfigForDestName", "MockConfig.GetSamplingKeyFieldsForDestName", "MockConfig.GetStdoutLoggerConfig", "MockConfig.GetStressReliefConfig", "MockConfig.GetTraceIdFieldNames", "MockConfig.GetTracesConfig", "MockConfig.GetUseIPV6Identifier", "MockConfig.RegisterReloadCallback", "MockConfig.Reload", "MockConfig.SetMaxAlloc", "MockGRPCHealthWatchServer.GetSentMessages", "MockGRPCHealthWatchServer.Send", "MockMetrics.Count", "MockMetrics.Down", "MockMetrics.Gauge", "MockMetrics.Get", "MockMetrics.GetHistogramCount", "MockMetrics.Histogram", "MockMetrics.Increment", "MockMetrics.Register", "MockMetrics.Start", "MockMetrics.Stop", "MockMetrics.Store", "MockMetrics.Up", "MockPeers.GetInstanceID", "MockPeers.GetPeers", "MockPeers.Ready", "MockPeers.RegisterUpdatedPeersCallback", "MockPeers.Start", "MockPeers.UpdatePeers", "MockStressReliever.GetSampleRate", "MockStressReliever.Recalc", "MockStressReliever.ShouldSampleDeterministically", "MockStressReliever.Start", "MockStressReliever.Stressed", "MockStressReliever.UpdateFromConfig", "MockTransmission.EnqueueEvent", "MockTransmission.EnqueueSpan", "MockTransmission.GetBlock", "MockTransmission.RegisterMetrics", "MockTransmission.Start", "MockTransmission.Stop", "MultiMetrics.AddChild", "MultiMetrics.Children", "MultiMetrics.Count", "MultiMetrics.Down", "MultiMetrics.Gauge", "MultiMetrics.Get", "MultiMetrics.Histogram", "MultiMetrics.Increment", "MultiMetrics.Register", "MultiMetrics.Start", "MultiMetrics.Store", "MultiMetrics.Up", "NewCmdEnvOptions", "NewCollectorWorker", "NewConfig", "NewConfigData", "NewCuckooSentCache", "NewCuckooTraceChecker", "NewCuckooTraceChecker$1", "NewDefaultTransmission", "NewDirectTransmission", "NewInMemCache", "NewInMemCache$1", "NewInMemCache$2", "NewKeptReasonsCache", "NewKeptTraceCacheEntry", "NewLogsServer", "NewMockCollector", "NewMockPeers", "NewMultiMetrics", "NewTraceServer", "NullMetrics.Count", "NullMetrics.Down", "NullMetrics.Gauge", "NullMetrics.Get", "NullMetrics.Histogram", "NullMetrics.Increment", "NullMetrics.Register", "NullMetrics.Start", "NullMetrics.Stop", "NullMetrics.Store", "NullMetrics.Up", "OTelMetrics.Count", "OTelMetrics.Down", "OTelMetrics.Gauge", "OTelMetrics.Histogram", "OTelMetrics.Increment", "OTelMetrics.Register", "OTelMetrics.Start", "OTelMetrics.Start$1", "OTelMetrics.Start$2", "OTelMetrics.Start$3", "OTelMetrics.Start$4", "OTelMetrics.Stop", "OTelMetrics.Up", "OTelMetrics.getOrInitCounter", "OTelMetrics.getOrInitGauge", "OTelMetrics.getOrInitHistogram", "OTelMetrics.getOrInitUpDown", "ParseLevel", "PrefixMetricName", "PromMetrics.Count", "PromMetrics.Down", "PromMetrics.Gauge", "PromMetrics.Histogram", "PromMetrics.Increment", "PromMetrics.Register", "PromMetrics.Start", "PromMetrics.Start$1", "PromMetrics.Up", "RedisPubsubPeers.GetInstanceID", "RedisPubsubPeers.GetPeers", "RedisPubsubPeers.Ready", "RedisPubsubPeers.Ready$1", "RedisPubsubPeers.RegisterUpdatedPeersCallback", "RedisPubsubPeers.Start", "RedisPubsubPeers.checkHash", "RedisPubsubPeers.listen", "RedisPubsubPeers.stop", "Router.AddOTLPMuxxer", "Router.Check", "Router.LnS", "Router.LnS$1", "Router.SetEnvironmentCache", "Router.SetEnvironmentCache$1", "Router.SetType", "Router.SetVersion", "Router.Stop", "Router.Watch", "Router.alive", "Router.apiKeyProcessor", "Router.apiKeyProcessor$1", "Router.batch", "Router.debugTrace", "Router.event", "Router.getAllSamplerRules", "Router.getConfigMetadata", "Router.getEnvironmentName", "Router.getKeyID", "Router.getSamplerRules", "Router.handleOTLPFailureResponse", "Router.handlerReturnWithError", "Router.lookupEnvironment", "Router.marshalToFormat", "Router.panic", "Router.panicCatcher", "Router.panicCatcher$1", "Router.panicCatcher$2", "Router.postOTLPLogs", "Router.postOTLPTrace", "Router.processEvent", "Router.processOTLPRequest", "Router.processOTLPRequestBatchMsgp", "Router.processOTLPRequestWithMsgp", "Router.proxy", "Router.queryTokenChecker", "Router.queryTokenChecker$1", "Router.readAndCloseMaybeCompressedBody", "Router.readBodyToBuffer", "Router.readGzipBody", "Router.readUncompressedBody", "Router.readZstdBody", "Router.ready", "Router.registerMetricNames", "Router.requestLogger", "Router.requestLogger$1", "Router.requestToEvent", "Router.setResponseHeaders", "Router.setResponseHeaders$1", "Router.startGRPCHealthMonitor", "Router.startGRPCHealthMonitor$1", "Router.startGRPCHealthMonitor$2", "Router.version", "RulesBasedDownstreamSampler.GetSamplingFields", "RulesBasedDownstreamSampler.NameMeaningfulRate", "RulesBasedSampler.GetKeyFields", "RulesBasedSampler.GetSampleRate", "RulesBasedSampler.Start", "RulesBasedSampler.Start$1", "RulesBasedSamplerCondition.GetComputedField", "RulesBasedSamplerCondition.Init", "RulesBasedSamplerCondition.Init$1", "RulesBasedSamplerCondition.String", "RulesBasedSamplerCondition.setMatchesFunction", "RulesBasedSamplerCondition.setMatchesFunction$1", "RulesBasedSamplerCondition.setMatchesFunction$2", "RulesBasedSamplerConfig.GetSamplingFields", "RulesBasedSamplerConfig.String", "RulesBasedSamplerRule.String", "SampleCacheConfig.GetDroppedSizePerWorker", "SampleCacheConfig.GetKeptSizePerWorker", "SamplerFactory.ClearDynsamplers", "SamplerFactory.GetDownstreamSampler", "SamplerFactory.GetSamplerImplementationForKey", "SamplerFactory.Start", "SamplerFactory.Stop", "SamplerFactory.createSampler", "SamplerFactory.updatePeerCounts", "SerializeToYAML", "StressRelief.GetSampleRate", "StressRelief.Recalc", "StressRelief.Start", "StressRelief.Start$1", "StressRelief.Start$2", "StressRelief.Stressed", "StressRelief.UpdateFromConfig", "StressRelief.clusterStressLevel", "StressRelief.linear", "StressRelief.onStressLevelUpdate", "StressRelief.ratio", "StressRelief.sigmoid", "StressRelief.sqrt", "StressRelief.square", "TotalThroughputSampler.GetKeyFields", "TotalThroughputSampler.GetSampleRate", "TotalThroughputSampler.Start", "TotalThroughputSampler.Start$1", "TotalThroughputSamplerConfig.GetSamplingFields", "TraceServer.ExportTraceData", "TracesConfig.GetBatchTimeout", "TracesConfig.GetMaxBatchSize", "TracesConfig.GetMaxExpiredTraces", "TracesConfig.GetSendDelay", "TracesConfig.GetSendTickerValue", "TracesConfig.GetTraceTimeout", "TryConvertToBool", "V2SamplerChoice.GetSamplingFields", "V2SamplerChoice.NameMeaningfulSamplers", "V2SamplerChoice.Sampler", "Validation.GetArgAsStringSlice", "ValidationResult.IsError", "ValidationResult.isEmpty", "ValidationResults.HasErrors", "WindowedThroughputSampler.GetKeyFields", "WindowedThroughputSampler.GetSampleRate", "WindowedThroughputSampler.Start", "WindowedThroughputSampler.Start$1", "WindowedThroughputSamplerConfig.GetSamplingFields", "WithConfigData", "WithConfigData$1", "WithRulesData", "WithRulesData$1", "addIncomingUserAgent", "applyCmdEnvTags", "applyConfigInto", "asFloat", "batchedEvent.MarshalMsg", "batchedEvent.UnmarshalMsg", "batchedEvent.getEventTime", "batchedEvent.getSampleRate", "batchedEvents.MarshalJSON", "batchedEvents.UnmarshalJSON", "batchedEvents.UnmarshalMsg", "batchedEvents.unmarshalBatchedEventFromFastJSON", "batchedEvents.unmarshalBatchedEventFromFastJSON$1", "batchedEvents.unmarshalBatchedEventFromFastJSON$2", "buildRequestURL", "checkForDeprecation", "clamp", "compare", "compareVersions", "conditionMatchesValue", "convertToString", "createDynForDynamicSampler", "createDynForEMADynamicSampler", "createDynForEMAThroughputSampler", "createDynForTotalThroughputSampler", "createDynForWindowedThroughputSampler", "cuckooDroppedRecord.Count", "cuckooDroppedRecord.DescendantCount", "cuckooDroppedRecord.Kept", "cuckooDroppedRecord.Rate", "cuckooDroppedRecord.Reason", "cuckooDroppedRecord.SpanCount", "cuckooDroppedRecord.SpanEventCount", "cuckooDroppedRecord.SpanLinkCount", "cuckooSentCache.CheckSpan", "cuckooSentCache.CheckTrace", "cuckooSentCache.Record", "cuckooSentCache.Resize", "cuckooSentCache.Stop", "cuckooSentCache.monitor", "customTraceExportHandler", "customTraceExportHandler$1", "distinctValue.AddAsString", "distinctValue.Reset", "distinctValue.Values", "dynsamplerMetricsRecorder.RecordMetrics", "dynsamplerMetricsRecorder.RegisterMetrics", "envGetterFunc", "environmentCache.addItem", "environmentCache.get", "expandEnvVarsInConfig", "expandEnvVarsInString", "expandEnvVarsInString$1", "expandEnvVarsInValues", "extractValueFromSpan", "fileConfig.DetermineSamplerKey", "fileConfig.GetAccessKeyConfig", "fileConfig.GetAddCountsToRoot", "fileConfig.GetAddHostMetadataToTrace", "fileConfig.GetAddRuleReasonToTrace", "fileConfig.GetAddSpanCountToRoot", "fileConfig.GetAdditionalAttributes", "fileConfig.GetAdditionalErrorFields", "fileConfig.GetAdditionalHeaders", "fileConfig.GetAllSamplerRules", "fileConfig.GetCollectionConfig", "fileConfig.GetCompressPeerCommunication", "fileConfig.GetConfigMetadata", "fileConfig.GetDatasetPrefix", "fileConfig.GetDebugServiceAddr", "fileConfig.GetEnvironmentCacheTTL", "fileConfig.GetGRPCConfig", "fileConfig.GetGRPCEnabled", "fileConfig.GetGRPCListenAddr", "fileConfig.GetGeneralConfig", "fileConfig.GetHTTPIdleTimeout", "fileConfig.GetHashes", "fileConfig.GetHealthCheckTimeout", "fileConfig.GetHoneycombAPI", "fileConfig.GetHoneycombLoggerConfig", "fileConfig.GetIdentifierInterfaceName", "fileConfig.GetIsDryRun", "fileConfig.GetListenAddr", "fileConfig.GetLoggerLevel", "fileConfig.GetLoggerType", "fileConfig.GetOTelMetricsConfig", "fileConfig.GetOTelTracingConfig", "fileConfig.GetOpAMPConfig", "fileConfig.GetParentIdFieldNames", "fileConfig.GetPeerListenAddr", "fileConfig.GetPeerManagementType", "fileConfig.GetPeerTimeout", "fileConfig.GetPeers", "fileConfig.GetPrometheusMetricsConfig", "fileConfig.GetQueryAuthToken", "fileConfig.GetRedisAuthCode", "fileConfig.GetRedisClusterHosts", "fileConfig.GetRedisDatabase", "fileConfig.GetRedisHost", "fileConfig.GetRedisIdentifier", "fileConfig.GetRedisPassword", "fileConfig.GetRedisPeerManagement", "fileConfig.GetRedisPrefix", "fileConfig.GetRedisUsername", "fileConfig.GetSampleCacheConfig", "fileConfig.GetSamplerConfigForDestName", "fileConfig.GetSamplingKeyFieldsForDestName", "fileConfig.GetStdoutLoggerConfig", "fileConfig.GetStressReliefConfig", "fileConfig.GetTraceIdFieldNames", "fileConfig.GetTracesConfig", "fileConfig.GetUseIPV6Identifier", "fileConfig.GetUseTLS", "fileConfig.GetUseTLSInsecure", "fileConfig.RegisterReloadCallback", "fileConfig.Reload", "flatten", "formatFromFilename", "formatFromResponse", "getAPIKeyAndDatasetFromMetadata", "getBytesFor", "getConfigDataForLocations", "getDatasetFromRequest", "getDefaultTrueValue", "getEventTime", "getFirstValueFromMetadata", "getIdentifierFromInterface", "getMetricType", "getPeerManagementConfig", "getRefineryTelemetryConfig", "getSharedDynsamplerAndRecorder", "getUserAgentFromRequest", "hashList", "init", "iopLogger.Debug", "iopLogger.Error", "iopLogger.Info", "isString", "isVersionDeprecated", "keptTraceCacheEntry.Count", "keptTraceCacheEntry.DescendantCount", "keptTraceCacheEntry.Kept", "keptTraceCacheEntry.Rate", "keptTraceCacheEntry.SpanCount", "keptTraceCacheEntry.SpanEventCount", "keptTraceCacheEntry.SpanLinkCount", "load", "loadConfigsInto", "loadConfigsIntoMap", "loadNamedMetadata", "makeDecoders", "makeDynsamplerKey", "maskString", "mergeTraceAndSpanSampleRates", "mustFloat", "newBatchedEvents", "newConfigAndRules", "newEnvironmentCache", "newFileConfig", "newPeerCommand", "newSamplerMetricNames", "newStressReliefMessage", "newTraceKey", "parseFractionalEpoch", "peerCommand.marshal", "peerCommand.unmarshal", "populateConfigContents", "publicAddr", "randStringBytes", "recycleHTTPBodyBuffer", "registerCustomTraceService", "ruleMatchesSpanInTrace", "ruleMatchesTrace", "selectIPFromAddrs", "setCompareOperators", "setCompareOperators$1", "setCompareOperators$10", "setCompareOperators$11", "setCompareOperators$12", "setCompareOperators$13", "setCompareOperators$14", "setCompareOperators$15", "setCompareOperators$16", "setCompareOperators$17", "setCompareOperators$18", "setCompareOperators$19", "setCompareOperators$2", "setCompareOperators$20", "setCompareOperators$3", "setCompareOperators$4", "setCompareOperators$5", "setCompareOperators$6", "setCompareOperators$7", "setCompareOperators$8", "setCompareOperators$9", "setInBasedOperators", "setInBasedOperators$1", "setInBasedOperators$2", "setInBasedOperators$3", "setInBasedOperators$4", "setMatchStringBasedOperators", "setMatchStringBasedOperators$1", "setMatchStringBasedOperators$2", "setMatchStringBasedOperators$3", "setRegexStringMatchOperator", "setRegexStringMatchOperator$1", "statusRecorder.WriteHeader", "stressReliefMessage.String", "traceKey.build", "translatedTraceServiceRequest.ProtoMessage", "translatedTraceServiceRequest.Reset", "translatedTraceServiceRequest.String", "translatedTraceServiceRequest.Unmarshal", "tryConvertToFloat", "tryConvertToInt", "unmarshal", "unmarshalStressReliefMessage", "validateConfigs", "validateDatatype", "validateRules", "writeYAMLToFile"]
+def fnNames : List String := ["AccessKeyConfig.GetReplaceKey", "AccessKeyConfig.HasKeyIDs", "AccessKeyConfig.IsAccepted", "CmdEnv.ApplyTags", "CmdEnv.GetDelimiter", "CmdEnv.GetField", "CollectionConfig.GetIncomingQueueSizePerWorker", "CollectionConfig.GetMaxAlloc", "CollectionConfig.GetPeerQueueSizePerWorker", "CollectionConfig.GetWorkerCount", "CollectorWorker.GetCacheSize", "CollectorWorker.IsHealthy", "CollectorWorker.Stop", "CollectorWorker.addSpan", "CollectorWorker.addSpanFromPeer", "CollectorWorker.collect", "CollectorWorker.getLastSpanProcessed", "CollectorWorker.makeDecision", "CollectorWorker.processSpan", "CollectorWorker.processSpan$1", "CollectorWorker.sendExpiredTracesInCache", "CollectorWorker.sendExpiredTracesInCache$1", "CollectorWorker.sendTracesEarly", "CollectorWorker.sendTracesEarly$1", "ConfigHashMetrics", "ConfigWatcher.ReloadCallback", "ConfigWatcher.Start", "ConfigWatcher.Stop", "ConfigWatcher.SubscriptionListener", "ConfigWatcher.monitor", "ConvertBoolToFloat", "CuckooTraceChecker.Add", "CuckooTraceChecker.Check", "CuckooTraceChecker.Maintain", "CuckooTraceChecker.SetNextCapacity", "CuckooTraceChecker.Stop", "CuckooTraceChecker.drain", "DefaultInMemCache.Get", "DefaultInMemCache.GetAll", "DefaultInMemCache.GetCacheCapacity", "DefaultInMemCache.GetCacheEntryCount", "DefaultInMemCache.RemoveTraces", "DefaultInMemCache.Set", "DefaultInMemCache.TakeExpiredTraces", "DefaultTransmission.EnqueueEvent", "DefaultTransmission.EnqueueSpan", "DefaultTransmission.RegisterMetrics", "DefaultTransmission.Start", "DefaultTransmission.Start$1", "DefaultTransmission.Start$2", "DefaultTransmission.Stop", "DefaultTransmission.processResponses", "DefaultTransmission.reloadTransmissionBuilder", "DefaultTrue.Get", "DefaultTrue.MarshalText", "DefaultTrue.UnmarshalText", "Deprecation.GetDeprecationText", "Deprecation.GetLastVersion", "DeterministicSampler.GetKeyFields", "DeterministicSampler.GetSampleRate", "DeterministicSampler.Start", "DeterministicSampler.Start$1", "DeterministicSamplerConfig.GetSamplingFields", "DirectTransmission.EnqueueEvent", "DirectTransmission.EnqueueEvent$1", "DirectTransmission.EnqueueSpan", "DirectTransmission.Start", "DirectTransmission.Stop", "DirectTransmission.Stop$1", "DirectTransmission.dispatchStaleBatches", "DirectTransmission.dispatchStaleBatches$1", "DirectTransmission.handleBatchFailure", "DirectTransmission.handleError", "DirectTransmission.handleEventError", "DirectTransmission.registerMetrics", "DirectTransmission.sendBatch", "Duration.MarshalText", "Duration.UnmarshalText", "DynamicSampler.GetKeyFields", "DynamicSampler.GetSampleRate", "DynamicSampler.Start", "DynamicSampler.Start$1", "DynamicSamplerConfig.GetSamplingFields", "EMADynamicSampler.GetKeyFields", "EMADynamicSampler.GetSampleRate", "EMADynamicSampler.Start", "EMADynamicSampler.Start$1", "EMADynamicSamplerConfig.GetSamplingFields", "EMAThroughputSampler.GetKeyFields", "EMAThroughputSampler.GetSampleRate", "EMAThroughputSampler.Start", "EMAThroughputSampler.Start$1", "EMAThroughputSamplerConfig.GetSamplingFields", "FileConfigError.Error", "FileConfigError.HasErrors", "FilePeers.GetInstanceID", "FilePeers.GetPeers", "FilePeers.Ready", "FilePeers.RegisterUpdatedPeersCallback", "FilePeers.Start", "FilePeers.Start$1", "GetCollectorImplementation", "GetKeyFields", "GetMetricsImplementation", "Group.GetDeprecationVersion", "Group.IsDeprecated", "HoneycombLoggerConfig.GetSamplerEnabled", "InMemCollector.AddSpan", "InMemCollector.AddSpanFromPeer", "InMemCollector.GetStressedSampleRate", "InMemCollector.IsMyTrace", "InMemCollector.ProcessSpanImmediately", "InMemCollector.Start", "InMemCollector.Start$1", "InMemCollector.Stop", "InMemCollector.Stressed", "InMemCollector.addAdditionalAttributes", "InMemCollector.checkAlloc", "InMemCollector.dealWithSentTrace", "InMemCollector.getWorkerIDForTrace", "InMemCollector.isReady", "InMemCollector.monitor", "InMemCollector.reloadConfigs", "InMemCollector.send", "InMemCollector.sendReloadSignal", "InMemCollector.sendTraces", "IsLegacyAPIKey", "KeptReasonsCache.Get", "KeptReasonsCache.Set", "Level.MarshalText", "Level.String", "Level.UnmarshalText", "LoadConfigMetadata", "LoadRulesMetadata", "LogsServer.Export", "MemorySize.MarshalText", "MemorySize.UnmarshalFlag", "MemorySize.UnmarshalText", "Metadata.ClosestNamesTo", "Metadata.ClosestNamesTo$1", "Metadata.GetField", "Metadata.GetGroup", "Metadata.LoadFrom", "Metadata.Validate", "Metadata.ValidateRules", "MetricType.String", "MockCollector.AddSpan", "MockCollector.AddSpanFromPeer", "MockCollector.Flush", "MockCollector.GetStressedSampleRate", "MockCollector.ProcessSpanImmediately", "MockCollector.Stressed", "MockConfig.DetermineSamplerKey", "MockConfig.GetAccessKeyConfig", "MockConfig.GetAddCountsToRoot", "MockConfig.GetAddHostMetadataToTrace", "MockConfig.GetAddRuleReasonToTrace", "MockConfig.GetAddSpanCountToRoot", "MockConfig.GetAdditionalAttributes", "MockConfig.GetAdditionalErrorFields", "MockConfig.GetAdditionalHeaders", "MockConfig.GetAllSamplerRules", "MockConfig.GetCollectionConfig", "MockConfig.GetCollectorType", "MockConfig.GetCompressPeerCommunication", "MockConfig.GetConfigMetadata", "MockConfig.GetDatasetPrefix", "MockConfig.GetDebugServiceAddr", "MockConfig.GetEnvironmentCacheTTL", "MockConfig.GetGRPCConfig", "MockConfig.GetGRPCEnabled", "MockConfig.GetGRPCListenAddr", "MockConfig.GetGeneralConfig", "MockConfig.GetHTTPIdleTimeout", "MockConfig.GetHashes", "MockConfig.GetHealthCheckTimeout", "MockConfig.GetHoneycombAPI", "MockConfig.GetHoneycombLoggerConfig", "MockConfig.GetIdentifierInterfaceName", "MockConfig.GetIsDryRun", "MockConfig.GetListenAddr", "MockConfig.GetLoggerLevel", "MockConfig.GetLoggerType", "MockConfig.GetOTelMetricsConfig", "MockConfig.GetOTelTracingConfig", "MockConfig.GetOpAMPConfig", "MockConfig.GetParentIdFieldNames", "MockConfig.GetPeerListenAddr", "MockConfig.GetPeerManagementType", "MockConfig.GetPeerTimeout", "MockConfig.GetPeers", "MockConfig.GetPrometheusMetricsConfig", "MockConfig.GetQueryAuthToken", "MockConfig.GetRedisIdentifier", "MockConfig.GetRedisPeerManagement", "MockConfig.GetSampleCacheConfig", "MockConfig.GetSamplerConfigForDestName", "MockConfig.GetSamplingKeyFieldsForDestName", "MockConfig.GetStdoutLoggerConfig", "MockConfig.GetStressReliefConfig", "MockConfig.GetTraceIdFieldNames", "MockConfig.GetTracesConfig", "MockConfig.GetUseIPV6Identifier", "MockConfig.RegisterReloadCallback", "MockConfig.Reload", "MockConfig.SetMaxAlloc", "MockGRPCHealthWatchServer.GetSentMessages", "MockGRPCHealthWatchServer.Send", "MockMetrics.Count", "MockMetrics.Down", "MockMetrics.Gauge", "MockMetrics.Get", "MockMetrics.GetHistogramCount", "MockMetrics.Histogram", "MockMetrics.Increment", "MockMetrics.Register", "MockMetrics.Start", "MockMetrics.Stop", "MockMetrics.Store", "MockMetrics.Up", "MockPeers.GetInstanceID", "MockPeers.GetPeers", "MockPeers.Ready", "MockPeers.RegisterUpdatedPeersCallback", "MockPeers.Start", "MockPeers.UpdatePeers", "MockStressReliever.GetSampleRate", "MockStressReliever.Recalc", "MockStressReliever.ShouldSampleDeterministically", "MockStressReliever.Start", "MockStressReliever.Stressed", "MockStressReliever.UpdateFromConfig", "MockTransmission.EnqueueEvent", "MockTransmission.EnqueueSpan", "MockTransmission.GetBlock", "MockTransmission.RegisterMetrics", "MockTransmission.Start", "MockTransmission.Stop", "MultiMetrics.AddChild", "MultiMetrics.Children", "MultiMetrics.Count", "MultiMetrics.Down", "MultiMetrics.Gauge", "MultiMetrics.Get", "MultiMetrics.Histogram", "MultiMetrics.Increment", "MultiMetrics.Register", "MultiMetrics.Start", "MultiMetrics.Store", "MultiMetrics.Up", "NewCmdEnvOptions", "NewCollectorWorker", "NewConfig", "NewConfigData", "NewCuckooSentCache", "NewCuckooTraceChecker", "NewCuckooTraceChecker$1", "NewDefaultTransmission", "NewDirectTransmission", "NewInMemCache", "NewInMemCache$1", "NewInMemCache$2", "NewKeptReasonsCache", "NewKeptTraceCacheEntry", "NewLogsServer", "NewMockCollector", "NewMockPeers", "NewMultiMetrics", "NewTraceServer", "NullMetrics.Count", "NullMetrics.Down", "NullMetrics.Gauge", "NullMetrics.Get", "NullMetrics.Histogram", "NullMetrics.Increment", "NullMetrics.Register", "NullMetrics.Start", "NullMetrics.Stop", "NullMetrics.Store", "NullMetrics.Up", "OTelMetrics.Count", "OTelMetrics.Down", "OTelMetrics.Gauge", "OTelMetrics.Histogram", "OTelMetrics.Increment", "OTelMetrics.Register", "OTelMetrics.Start", "OTelMetrics.Start$1", "OTelMetrics.Start$2", "OTelMetrics.Start$3", "OTelMetrics.Start$4", "OTelMetrics.Stop", "OTelMetrics.Up", "OTelMetrics.getOrInitCounter", "OTelMetrics.getOrInitGauge", "OTelMetrics.getOrInitHistogram", "OTelMetrics.getOrInitUpDown", "ParseLevel", "PrefixMetricName", "PromMetrics.Count", "PromMetrics.Down", "PromMetrics.Gauge", "PromMetrics.Histogram", "PromMetrics.Increment", "PromMetrics.Register", "PromMetrics.Start", "PromMetrics.Start$1", "PromMetrics.Up", "RedisPubsubPeers.GetInstanceID", "RedisPubsubPeers.GetPeers", "RedisPubsubPeers.Ready", "RedisPubsubPeers.Ready$1", "RedisPubsubPeers.RegisterUpdatedPeersCallback", "RedisPubsubPeers.Start", "RedisPubsubPeers.checkHash", "RedisPubsubPeers.listen", "RedisPubsubPeers.stop", "Router.AddOTLPMuxxer", "Router.Check", "Router.LnS", "Router.LnS$1", "Router.SetEnvironmentCache", "Router.SetEnvironmentCache$1", "Router.SetType", "Router.SetVersion", "Router.Stop", "Router.Watch", "Router.alive", "Router.apiKeyProcessor", "Router.apiKeyProcessor$1", "Router.batch", "Router.debugTrace", "Router.event", "Router.getAllSamplerRules", "Router.getConfigMetadata", "Router.getEnvironmentName", "Router.getKeyID", "Router.getSamplerRules", "Router.handleOTLPFailureResponse", "Router.handlerReturnWithError", "Router.lookupEnvironment", "Router.marshalToFormat", "Router.panic", "Router.panicCatcher", "Router.panicCatcher$1", "Router.panicCatcher$2", "Router.postOTLPLogs", "Router.postOTLPTrace", "Router.processEvent", "Router.processOTLPRequest", "Router.processOTLPRequestBatchMsgp", "Router.processOTLPRequestWithMsgp", "Router.proxy", "Router.queryTokenChecker", "Router.queryTokenChecker$1", "Router.readAndCloseMaybeCompressedBody", "Router.readBodyToBuffer", "Router.readGzipBody", "Router.readUncompressedBody", "Router.readZstdBody", "Router.ready", "Router.registerMetricNames", "Router.requestLogger", "Router.requestLogger$1", "Router.requestToEvent", "Router.setResponseHeaders", "Router.setResponseHeaders$1", "Router.startGRPCHealthMonitor", "Router.startGRPCHealthMonitor$1", "Router.startGRPCHealthMonitor$2", "Router.version", "RulesBasedDownstreamSampler.GetSamplingFields", "RulesBasedDownstreamSampler.NameMeaningfulRate", "RulesBasedSampler.GetKeyFields", "RulesBasedSampler.GetSampleRate", "RulesBasedSampler.Start", "RulesBasedSampler.Start$1", "RulesBasedSamplerCondition.GetComputedField", "RulesBasedSamplerCondition.Init", "RulesBasedSamplerCondition.Init$1", "RulesBasedSamplerCondition.String", "RulesBasedSamplerCondition.setMatchesFunction", "RulesBasedSamplerCondition.setMatchesFunction$1", "RulesBasedSamplerCondition.setMatchesFunction$2", "RulesBasedSamplerConfig.GetSamplingFields", "RulesBasedSamplerConfig.String", "RulesBasedSamplerRule.String", "SampleCacheConfig.GetDroppedSizePerWorker", "SampleCacheConfig.GetKeptSizePerWorker", "SamplerFactory.ClearDynsamplers", "SamplerFactory.GetDownstreamSampler", "SamplerFactory.GetSamplerImplementationForKey", "SamplerFactory.Start", "SamplerFactory.Stop", "SamplerFactory.createSampler", "SamplerFactory.updatePeerCounts", "SerializeToYAML", "StressRelief.GetSampleRate", "StressRelief.Recalc", "StressRelief.Start", "StressRelief.Start$1", "StressRelief.Start$2", "StressRelief.Stressed", "StressRelief.UpdateFromConfig", "StressRelief.clusterStressLevel", "StressRelief.linear", "StressRelief.onStressLevelUpdate", "StressRelief.ratio", "StressRelief.sigmoid", "StressRelief.sqrt", "StressRelief.square", "TotalThroughputSampler.GetKeyFields", "TotalThroughputSampler.GetSampleRate", "TotalThroughputSampler.Start", "TotalThroughputSampler.Start$1", "TotalThroughputSamplerConfig.GetSamplingFields", "TraceServer.ExportTraceData", "TracesConfig.GetBatchTimeout", "TracesConfig.GetMaxBatchSize", "TracesConfig.GetMaxExpiredTraces", "TracesConfig.GetSendDelay", "TracesConfig.GetSendTickerValue", "TracesConfig.GetTraceTimeout", "TryConvertToBool", "V2SamplerChoice.GetSamplingFields", "V2SamplerChoice.NameMeaningfulSamplers", "V2SamplerChoice.Sampler", "V2SamplerConfig.check", "Validation.GetArgAsStringSlice", "ValidationResult.IsError", "ValidationResult.isEmpty", "ValidationResults.HasErrors", "WindowedThroughputSampler.GetKeyFields", "WindowedThroughputSampler.GetSampleRate", "WindowedThroughputSampler.Start", "WindowedThroughputSampler.Start$1", "WindowedThroughputSamplerConfig.GetSamplingFields", "WithConfigData", "WithConfigData$1", "WithRulesData", "WithRulesData$1", "addIncomingUserAgent", "applyCmdEnvTags", "applyConfigInto", "asFloat", "batchedEvent.MarshalMsg", "batchedEvent.UnmarshalMsg", "batchedEvent.getEventTime", "batchedEvent.getSampleRate", "batchedEvents.MarshalJSON", "batchedEvents.UnmarshalJSON", "batchedEvents.UnmarshalMsg", "batchedEvents.unmarshalBatchedEventFromFastJSON", "batchedEvents.unmarshalBatchedEventFromFastJSON$1", "batchedEvents.unmarshalBatchedEventFromFastJSON$2", "buildRequestURL", "checkForDeprecation", "clamp", "compare", "compareVersions", "conditionMatchesValue", "convertToString", "createDynForDynamicSampler", "createDynForEMADynamicSampler", "createDynForEMAThroughputSampler", "createDynForTotalThroughputSampler", "createDynForWindowedThroughputSampler", "cuckooDroppedRecord.Count", "cuckooDroppedRecord.DescendantCount", "cuckooDroppedRecord.Kept", "cuckooDroppedRecord.Rate", "cuckooDroppedRecord.Reason", "cuckooDroppedRecord.SpanCount", "cuckooDroppedRecord.SpanEventCount", "cuckooDroppedRecord.SpanLinkCount", "cuckooSentCache.CheckSpan", "cuckooSentCache.CheckTrace", "cuckooSentCache.Record", "cuckooSentCache.Resize", "cuckooSentCache.Stop", "cuckooSentCache.monitor", "customTraceExportHandler", "customTraceExportHandler$1", "distinctValue.AddAsString", "distinctValue.Reset", "distinctValue.Values", "dynsamplerMetricsRecorder.RecordMetrics", "dynsamplerMetricsRecorder.RegisterMetrics", "envGetterFunc", "environmentCache.addItem", "environmentCache.get", "expandEnvVarsInConfig", "expandEnvVarsInString", "expandEnvVarsInString$1", "expandEnvVarsInValues", "extractValueFromSpan", "fileConfig.DetermineSamplerKey", "fileConfig.GetAccessKeyConfig", "fileConfig.GetAddCountsToRoot", "fileConfig.GetAddHostMetadataToTrace", "fileConfig.GetAddRuleReasonToTrace", "fileConfig.GetAddSpanCountToRoot", "fileConfig.GetAdditionalAttributes", "fileConfig.GetAdditionalErrorFields", "fileConfig.GetAdditionalHeaders", "fileConfig.GetAllSamplerRules", "fileConfig.GetCollectionConfig", "fileConfig.GetCompressPeerCommunication", "fileConfig.GetConfigMetadata", "fileConfig.GetDatasetPrefix", "fileConfig.GetDebugServiceAddr", "fileConfig.GetEnvironmentCacheTTL", "fileConfig.GetGRPCConfig", "fileConfig.GetGRPCEnabled", "fileConfig.GetGRPCListenAddr", "fileConfig.GetGeneralConfig", "fileConfig.GetHTTPIdleTimeout", "fileConfig.GetHashes", "fileConfig.GetHealthCheckTimeout", "fileConfig.GetHoneycombAPI", "fileConfig.GetHoneycombLoggerConfig", "fileConfig.GetIdentifierInterfaceName", "fileConfig.GetIsDryRun", "fileConfig.GetListenAddr", "fileConfig.GetLoggerLevel", "fileConfig.GetLoggerType", "fileConfig.GetOTelMetricsConfig", "fileConfig.GetOTelTracingConfig", "fileConfig.GetOpAMPConfig", "fileConfig.GetParentIdFieldNames", "fileConfig.GetPeerListenAddr", "fileConfig.GetPeerManagementType", "fileConfig.GetPeerTimeout", "fileConfig.GetPeers", "fileConfig.GetPrometheusMetricsConfig", "fileConfig.GetQueryAuthToken", "fileConfig.GetRedisAuthCode", "fileConfig.GetRedisClusterHosts", "fileConfig.GetRedisDatabase", "fileConfig.GetRedisHost", "fileConfig.GetRedisIdentifier", "fileConfig.GetRedisPassword", "fileConfig.GetRedisPeerManagement", "fileConfig.GetRedisPrefix", "fileConfig.GetRedisUsername", "fileConfig.GetSampleCacheConfig", "fileConfig.GetSamplerConfigForDestName", "fileConfig.GetSamplingKeyFieldsForDestName", "fileConfig.GetStdoutLoggerConfig", "fileConfig.GetStressReliefConfig", "fileConfig.GetTraceIdFieldNames", "fileConfig.GetTracesConfig", "fileConfig.GetUseIPV6Identifier", "fileConfig.GetUseTLS", "fileConfig.GetUseTLSInsecure", "fileConfig.RegisterReloadCallback", "fileConfig.Reload", "flatten", "formatFromFilename", "formatFromResponse", "getAPIKeyAndDatasetFromMetadata", "getBytesFor", "getConfigDataForLocations", "getDatasetFromRequest", "getDefaultTrueValue", "getEventTime", "getFirstValueFromMetadata", "getIdentifierFromInterface", "getMetricType", "getPeerManagementConfig", "getRefineryTelemetryConfig", "getSharedDynsamplerAndRecorder", "getUserAgentFromRequest", "hashList", "init", "iopLogger.Debug", "iopLogger.Error", "iopLogger.Info", "isString", "isVersionDeprecated", "keptTraceCacheEntry.Count", "keptTraceCacheEntry.DescendantCount", "keptTraceCacheEntry.Kept", "keptTraceCacheEntry.Rate", "keptTraceCacheEntry.SpanCount", "keptTraceCacheEntry.SpanEventCount", "keptTraceCacheEntry.SpanLinkCount", "load", "loadConfigsInto", "loadConfigsIntoMap", "loadNamedMetadata", "makeDecoders", "makeDynsamplerKey", "maskString", "mergeTraceAndSpanSampleRates", "mustFloat", "newBatchedEvents", "newConfigAndRules", "newEnvironmentCache", "newFileConfig", "newPeerCommand", "newSamplerMetricNames", "newStressReliefMessage", "newTraceKey", "parseFractionalEpoch", "peerCommand.marshal", "peerCommand.unmarshal", "populateConfigContents", "publicAddr", "randStringBytes", "recycleHTTPBodyBuffer", "registerCustomTraceService", "ruleMatchesSpanInTrace", "ruleMatchesTrace", "selectIPFromAddrs", "setCompareOperators", "setCompareOperators$1", "setCompareOperators$10", "setCompareOperators$11", "setCompareOperators$12", "setCompareOperators$13", "setCompareOperators$14", "setCompareOperators$15", "setCompareOperators$16", "setCompareOperators$17", "setCompareOperators$18", "setCompareOperators$19", "setCompareOperators$2", "setCompareOperators$20", "setCompareOperators$3", "setCompareOperators$4", "setCompareOperators$5", "setCompareOperators$6", "setCompareOperators$7", "setCompareOperators$8", "setCompareOperators$9", "setInBasedOperators", "setInBasedOperators$1", "setInBasedOperators$2", "setInBasedOperators$3", "setInBasedOperators$4", "setMatchStringBasedOperators", "setMatchStringBasedOperators$1", "setMatchStringBasedOperators$2", "setMatchStringBasedOperators$3", "setRegexStringMatchOperator", "setRegexStringMatchOperator$1", "statusRecorder.WriteHeader", "stressReliefMessage.String", "traceKey.build", "translatedTraceServiceRequest.ProtoMessage", "translatedTraceServiceRequest.Reset", "translatedTraceServiceRequest.String", "translatedTraceServiceRequest.Unmarshal", "tryConvertToFloat", "tryConvertToInt", "unmarshal", "unmarshalStressReliefMessage", "validateConfigs", "validateDatatype", "validateRules", "writeYAMLToFile"]
 
 def declaredFields : List Nat := [
   L.«InMemCollector.Config»,
